@@ -6,7 +6,7 @@ import scan
 import c04
 import c12
 
-CONFIGS_QUICK = ["F_all"]
+CONFIGS_QUICK = ["F_all", "F_def"]  # every configuration whose cfg-gated code the property depends on
 CONFIGS_THOROUGH = ["F_all", "F_def"]
 TECHNIQUE = 'static analysis: who-reads-which-flag confinement over all Config field reads in the crate, option-only-adds path rules, sibling contradiction rule (is_empty guard) on Text-producing paths, save/restore of the one option written while reading, comment-scan window rule'
 EXPLANATION = (
